@@ -127,29 +127,38 @@ func (g *sgen) expr(depth int, scope []int) (coq, js string) {
 			c, j := g.expr(depth-1, scope)
 			extC, extJ = "(Some "+c+")", " extends ("+j+")"
 		}
-		var cs, js []string
-		for q := r.Intn(3); q > 0; q-- {
-			c, j := g.fun(depth-1, scope, true, fmt.Sprintf("m%d", q))
-			cs = append(cs, c)
-			js = append(js, j)
-		}
-		return "(XClass " + extC + " [" + strings.Join(cs, ";") + "])", "(class" + extJ + " { " + strings.Join(js, " ") + " })"
+		mc, mj := g.members(depth-1, scope)
+		return "(XClass " + extC + " " + mc + ")", "(class" + extJ + " { " + mj + " })"
 	}
+}
+
+// parameter list with default values: the defaults see the parameters and the
+// enclosing scopes, not the body's vars
+func (g *sgen) paramList(depth int, params, scope []int) (coqDefaults string, js string) {
+	var ds, ps []string
+	dscope := append(append([]int{}, params...), scope...)
+	for _, p := range params {
+		if g.r.Chance(35) {
+			c, j := g.expr(depth, dscope)
+			ds = append(ds, c)
+			ps = append(ps, nm(p)+" = "+j)
+		} else {
+			ps = append(ps, nm(p))
+		}
+	}
+	return "[" + strings.Join(ds, ";") + "]", strings.Join(ps, ", ")
 }
 
 // a function expression (or a method when method is set)
 func (g *sgen) fun(depth int, scope []int, method bool, name string) (coq, js string) {
 	params, locals := g.binders(2), g.binders(1)
 	inner := append(append(append([]int{}, params...), locals...), scope...)
+	dc, pj := g.paramList(depth, params, scope)
 	var cs, js2 []string
 	for q := g.r.Range(1, 2); q > 0; q-- {
 		c, j := g.expr(depth, inner)
 		cs = append(cs, c)
 		js2 = append(js2, "("+j+");")
-	}
-	var ps []string
-	for _, p := range params {
-		ps = append(ps, nm(p))
 	}
 	decl := ""
 	if len(locals) > 0 {
@@ -159,12 +168,59 @@ func (g *sgen) fun(depth int, scope []int, method bool, name string) (coq, js st
 		}
 		decl = "var " + strings.Join(ls, ", ") + "; "
 	}
-	coq = "(XFun " + cnl(params) + " " + cnl(locals) + " [" + strings.Join(cs, ";") + "])"
-	body := "(" + strings.Join(ps, ", ") + ") { " + decl + strings.Join(js2, " ") + " }"
+	coq = "(XFun " + cnl(params) + " " + dc + " " + cnl(locals) + " [" + strings.Join(cs, ";") + "])"
+	body := "(" + pj + ") { " + decl + strings.Join(js2, " ") + " }"
 	if method {
 		return coq, name + body
 	}
 	return coq, "(function " + body + ")"
+}
+
+// class members: methods, fields (static or not, computed key or not), static blocks
+func (g *sgen) members(depth int, scope []int) (string, string) {
+	r := g.r
+	var cs, js []string
+	for q := r.Intn(4); q > 0; q-- {
+		switch r.Intn(4) {
+		case 0, 1:
+			c, j := g.fun(depth, scope, true, fmt.Sprintf("m%d", q))
+			cs = append(cs, c)
+			js = append(js, j)
+		case 2:
+			st, stj := "false", ""
+			if r.Bool() {
+				st, stj = "true", "static "
+			}
+			keyC, keyJ := "None", fmt.Sprintf("f%d", q)
+			if r.Chance(40) {
+				c, j := g.expr(depth, scope)
+				keyC, keyJ = "(Some "+c+")", "[("+j+")]"
+			}
+			initC, initJ := "None", ""
+			if r.Chance(75) {
+				c, j := g.expr(depth, scope)
+				initC, initJ = "(Some "+c+")", " = ("+j+")"
+			}
+			cs = append(cs, "(XField "+st+" "+keyC+" "+initC+")")
+			js = append(js, stj+keyJ+initJ+";")
+		default:
+			locals := g.binders(1)
+			inner := append(append([]int{}, locals...), scope...)
+			var bc, bj []string
+			for w := r.Range(1, 2); w > 0; w-- {
+				c, j := g.expr(depth, inner)
+				bc = append(bc, c)
+				bj = append(bj, "("+j+");")
+			}
+			decl := ""
+			if len(locals) > 0 {
+				decl = "var " + nm(locals[0]) + "; "
+			}
+			cs = append(cs, "(XStaticBlock "+cnl(locals)+" ["+strings.Join(bc, ";")+"])")
+			js = append(js, "static { "+decl+strings.Join(bj, " ")+" }")
+		}
+	}
+	return "[" + strings.Join(cs, ";") + "]", strings.Join(js, " ")
 }
 
 type sprog struct {
@@ -234,6 +290,20 @@ func (g *sgen) program() sprog {
 						}
 						cs = append(cs, "(PArr ["+strings.Join(its, ";")+"], Some "+ic+")")
 						js = append(js, "["+strings.Join(jits, ", ")+"] = "+ij)
+					} else if r.Chance(18) { // object pattern: computed keys and defaults use symbols
+						keyC, keyJ := "None", "k1"
+						if r.Chance(60) {
+							c, j := g.expr(1, nil)
+							keyC, keyJ = "Some "+c, "[("+j+")]"
+						}
+						defC, defJ := "None", ""
+						if r.Chance(50) {
+							c, j := g.expr(1, nil)
+							defC, defJ = "Some "+c, " = ("+j+")"
+						}
+						ic, ij := g.expr(1, nil)
+						cs = append(cs, "(PObj [("+keyC+", "+cn(x)+", "+defC+")], Some "+ic+")")
+						js = append(js, "{ "+keyJ+": "+nm(x)+defJ+" } = ("+ij+")")
 					} else if r.Chance(15) && kw == "var" {
 						cs = append(cs, "(PId "+cn(x)+", None)")
 						js = append(js, nm(x))
@@ -263,16 +333,14 @@ func (g *sgen) program() sprog {
 			case 1:
 				params, locals := g.binders(2), g.binders(1)
 				inner := append(append([]int{}, params...), locals...)
+				dc, pj := g.paramList(1, params, nil)
 				var cs, js []string
 				for q := r.Range(1, 2); q > 0; q-- {
 					c, j := g.expr(2, inner)
 					cs = append(cs, c)
 					js = append(js, "("+j+");")
 				}
-				var ps, ls []string
-				for _, q := range params {
-					ps = append(ps, nm(q))
-				}
+				var ls []string
 				decl := ""
 				if len(locals) > 0 {
 					for _, l := range locals {
@@ -280,8 +348,8 @@ func (g *sgen) program() sprog {
 					}
 					decl = "var " + strings.Join(ls, ", ") + "; "
 				}
-				add("(SSFunction "+cn(x)+" "+cnl(params)+" "+cnl(locals)+" ["+strings.Join(cs, ";")+"])",
-					"function "+nm(x)+"("+strings.Join(ps, ", ")+") { "+decl+strings.Join(js, " ")+" }")
+				add("(SSFunction "+cn(x)+" "+cnl(params)+" "+dc+" "+cnl(locals)+" ["+strings.Join(cs, ";")+"])",
+					"function "+nm(x)+"("+pj+") { "+decl+strings.Join(js, " ")+" }")
 			case 2:
 				hasExt := r.Chance(50)
 				extC, extJ := "None", ""
@@ -289,13 +357,8 @@ func (g *sgen) program() sprog {
 					c, j := g.expr(1, nil)
 					extC, extJ = "(Some "+c+")", " extends ("+j+")"
 				}
-				var cs, js []string
-				for q := r.Intn(3); q > 0; q-- {
-					c, j := g.fun(1, nil, true, fmt.Sprintf("m%d", q))
-					cs = append(cs, c)
-					js = append(js, j)
-				}
-				add("(SSClass "+cn(x)+" "+extC+" ["+strings.Join(cs, ";")+"])", "class "+nm(x)+extJ+" { "+strings.Join(js, " ")+" }")
+				mc, mj := g.members(1, nil)
+				add("(SSClass "+cn(x)+" "+extC+" "+mc+")", "class "+nm(x)+extJ+" { "+mj+" }")
 			default:
 				add("(SSImport ["+cn(x)+"])", "import { x as "+nm(x)+" } from \"./dep.js\";")
 			}
@@ -310,10 +373,64 @@ func (g *sgen) program() sprog {
 		case k < 82:
 			c, j := g.expr(2, nil)
 			add("(SSIf "+c+")", "if ("+j+") { }")
-		case k < 88:
+		case k < 85:
 			x := g.pool[r.Intn(len(g.pool))]
 			c, j := g.expr(1, nil)
-			add("(SSTry (XArr [XId "+cn(x)+"; "+c+"]))", "try { ["+nm(x)+", "+j+"]; } catch { }")
+			tryC, tryJ := "(XArr [XId "+cn(x)+"; "+c+"])", "try { ["+nm(x)+", "+j+"]; }"
+			switch r.Intn(3) {
+			case 0:
+				add("(SSTry "+tryC+" None)", tryJ+" finally { }")
+			case 1:
+				hc, hj := g.expr(1, nil)
+				add("(SSTry "+tryC+" (Some (None, ["+hc+"])))", tryJ+" catch { ("+hj+"); }")
+			default:
+				bs := g.binders(1)
+				if len(bs) == 0 {
+					g.local++
+					bs = []int{100 + g.local}
+				}
+				h1c, h1j := g.expr(1, bs)
+				add("(SSTry "+tryC+" (Some (Some "+cn(bs[0])+", ["+h1c+"; XId "+cn(bs[0])+"])))", tryJ+" catch ("+nm(bs[0])+") { ("+h1j+"); ("+nm(bs[0])+"); }")
+			}
+		case k < 88: // loops and labels
+			kind := r.Intn(7)
+			bs := g.binders(1)
+			if len(bs) == 0 {
+				g.local++
+				bs = []int{100 + g.local}
+			}
+			b := bs[0]
+			h := nn // the name no other statement declares: a `var` in a loop head declares it at the top level
+			switch kind {
+			case 0:
+				c1, j1 := g.expr(1, bs)
+				c2, j2 := g.expr(1, bs)
+				c3, j3 := g.expr(1, bs)
+				add(fmt.Sprintf("(SSCompound 0 [] %s [%s; %s; %s] [])", cnl(bs), c1, c2, c3), "for (let "+nm(b)+" = ("+j1+"); ("+j2+"); ) { ("+j3+"); break; }")
+			case 1, 2:
+				c1, j1 := g.expr(1, bs)
+				c2, j2 := g.expr(1, bs)
+				word := "of"
+				if kind == 2 {
+					word = "in"
+				}
+				add(fmt.Sprintf("(SSCompound %d [] %s [%s; %s] [])", kind, cnl(bs), c1, c2), "for (let "+nm(b)+" "+word+" ("+j1+")) { ("+j2+"); }")
+			case 3:
+				c1, j1 := g.expr(1, nil)
+				c2, j2 := g.expr(1, nil)
+				add(fmt.Sprintf("(SSCompound 3 [%s; %s] [] [] %s)", c1, c2, cnl([]int{h})), "for (var "+nm(h)+" of ("+j1+")) { ("+j2+"); }")
+			case 4:
+				c1, j1 := g.expr(1, nil)
+				c2, j2 := g.expr(1, nil)
+				add(fmt.Sprintf("(SSCompound 4 [%s; %s] [] [] %s)", c1, c2, cnl([]int{h})), "for (var "+nm(h)+" = ("+j1+"); ("+j2+"); ) { break; }")
+			case 5:
+				c1, j1 := g.expr(2, nil)
+				add("(SSCompound 5 ["+c1+"] [] [] [])", "lbl: { ("+j1+"); break lbl; }")
+			default:
+				c1, j1 := g.expr(1, nil)
+				c2, j2 := g.expr(1, nil)
+				add("(SSCompound 6 ["+c1+"; "+c2+"] [] [] [])", "while ("+j1+") { ("+j2+"); break; }")
+			}
 		case k < 91: // a block with a hoisted var: a fresh name, or one that redeclares a top-level var / function (0bc1420)
 			var cands []int
 			for i := 1; i < nn; i++ {
